@@ -809,7 +809,7 @@ def _c3_exp(x, a=0.05, b=0.2, c=-0.2):
     return a + b * np.exp(c * x)
 
 
-def chain3d_model(fitted, rng, n):
+def chain3d_model(fitted, rng, n, shape="2+2"):
     """X0 Weibull; X1 | X0 log-normal (mu, sigma dependent); X2 | X1 Weibull (alpha, beta dependent): two conditional
     dimensions, four dependent parameters -> four axes, in the order of the dimensions"""
     import virocon as vc
@@ -817,6 +817,19 @@ def chain3d_model(fitted, rng, n):
     def descs(for_fit):
         kw = {} if not for_fit else {"bounds": [(0, None), (0, None), (None, None)]}
         kw2 = {} if not for_fit else {"bounds": [(0, None), (0, None)]}
+        if shape != "2+2":
+            # conditional dimensions with DIFFERENT numbers of dependent parameters ("2+1" / "1+2"): the axes of the
+            # dependence plot are still one per dependent parameter, in the order of the dimensions
+            two = {"distribution": vc.LogNormalDistribution(), "parameters": {"mu": vc.DependenceFunction(_c3_pow, **kw),
+                                                                              "sigma": vc.DependenceFunction(_c3_exp, **kw)}}
+            one = {"distribution": vc.LogNormalDistribution(f_sigma=0.3), "parameters": {"mu": vc.DependenceFunction(_c3_pow, **kw)}}
+            first, second = (two, one) if shape == "2+1" else (one, two)
+            return [
+                {"distribution": vc.WeibullDistribution(alpha=2.5, beta=1.5, gamma=0.5) if not for_fit else vc.WeibullDistribution(),
+                 "intervals": vc.NumberOfIntervalsSlicer(5, min_n_points=20)},
+                dict(first, conditional_on=0, intervals=vc.NumberOfIntervalsSlicer(4, min_n_points=20)),
+                dict(second, conditional_on=1),
+            ]
         return [
             {"distribution": vc.WeibullDistribution(alpha=2.5, beta=1.5, gamma=0.5) if not for_fit else vc.WeibullDistribution(),
              "intervals": vc.NumberOfIntervalsSlicer(5, min_n_points=20)},
@@ -846,7 +859,7 @@ def materialize_model(case):
         model, sem = vanem_model()
         return model, None, sem
     if case["model"] == "Chain3D":
-        return chain3d_model(case["fitted"], sub_rng(case), case.get("n_sample", 1500))
+        return chain3d_model(case["fitted"], sub_rng(case), case.get("n_sample", 1500), case.get("shape", "2+2"))
     getter, ds = MODELS[case["model"]]
     dd, fd, sem = getattr(vc, getter)()
     model = vc.GlobalHierarchicalModel(dd)
@@ -880,7 +893,14 @@ def process_models(ck, cases):
     import virocon as vc
 
     for case in cases:
-        model, sample, sem = materialize_model(case)
+        try:
+            model, sample, sem = materialize_model(case)
+        except RuntimeError as e:
+            # the optimiser behind a dependence-function fit gave up on this particular sub-sample: nothing to plot
+            if "Failed to fit dependence function" not in str(e) and "too few intervals" not in str(e):
+                raise
+            ck.count("models:fit_failed_on_subsample")
+            continue
         semantics = sem if case.get("with_sem", True) else None
         bad = []      # (entry, predicate, detail)
         lines = []    # driver lines
@@ -1116,7 +1136,7 @@ def process_models(ck, cases):
                 if cur is None or not same_bits(cur, a2):
                     divs.append((entry, f"{where}: Z handed to contour differs from the pdf leaf at the grid nodes"))
         ck.case(case, nontrivial=bool(cond_dims) and case["fitted"])
-        ck.count("models:" + case["model"] + (":fitted" if case["fitted"] else ":unfitted"))
+        ck.count("models:" + case["model"] + case.get("shape", "") + (":fitted" if case["fitted"] else ":unfitted"))
         ck.count("models:curves_checked", len(checks))
         for entry, pred, detail in bad:
             ck.fail({"entry": entry, "predicate": pred}, case, detail)
@@ -1136,6 +1156,9 @@ def model_cases(rng, seed, n_cases, start):
                "limits": None if rng.integers(0, 2) else [[0.0, float(rng.uniform(20, 40))], [0.0, float(rng.uniform(12, 25))]]}
     yield {"kind": "models", "gen": [seed, start + n_cases], "model": "VanemBG", "fitted": False, "with_sem": True}
     yield {"kind": "models", "gen": [seed, start + n_cases + 1], "model": "Chain3D", "fitted": False, "with_sem": True}
+    yield {"kind": "models", "gen": [seed, start + n_cases + 3], "model": "Chain3D", "fitted": False, "with_sem": True, "shape": "2+1"}
+    yield {"kind": "models", "gen": [seed, start + n_cases + 4], "model": "Chain3D", "fitted": False, "with_sem": bool(rng.integers(0, 2)),
+           "shape": "1+2"}
     yield {"kind": "models", "gen": [seed, start + n_cases + 2], "model": "Chain3D", "fitted": True, "with_sem": bool(rng.integers(0, 2)),
            "n_sample": int(rng.choice([1000, 2000]))}
 
